@@ -133,8 +133,37 @@ func VerifC10_V2Precedence() {
 		cfg.Proposers = []*ProposerConfig{first} // no entry matches
 	}
 
+	// the configuration object serves many lookups during its life: an earlier lookup for
+	// another validator (the one the first entry names when it does not name ours) has no
+	// bearing on this one, and what it was handed does not change afterwards
+	type relaySnap struct {
+		addr     string
+		fee      bellatrix.ExecutionAddress
+		gas, min uint64
+		grace    time.Duration
+	}
+	var earlier *beaconblockproposer.ProposerConfig
+	var earlierSnap []relaySnap
+	if vnd.Bool("an-earlier-lookup-for-another-validator") {
+		earlier, _ = cfg.ProposerConfig(context.Background(), nil, phase0.BLSPubKey{9}, fallbackFee, fallbackGas)
+		if earlier != nil {
+			for _, r := range earlier.Relays {
+				earlierSnap = append(earlierSnap, relaySnap{r.Address, r.FeeRecipient, r.GasLimit, r.MinValue.BigInt().Uint64(), r.Grace})
+			}
+		}
+	}
+
 	got, err := cfg.ProposerConfig(context.Background(), nil, pubkey, fallbackFee, fallbackGas)
 	vnd.Assert(err == nil && got != nil, "C10.v2.no-error")
+	if earlier != nil {
+		vnd.Assert(len(earlier.Relays) == len(earlierSnap), "C10.v2.settings-handed-out-earlier-are-unchanged")
+		for i, r := range earlier.Relays {
+			if i < len(earlierSnap) {
+				w := earlierSnap[i]
+				vnd.Assert(r.Address == w.addr && r.FeeRecipient == w.fee && r.GasLimit == w.gas && r.Grace == w.grace && r.MinValue.BigInt().Uint64() == w.min, "C10.v2.settings-handed-out-earlier-are-unchanged")
+			}
+		}
+	}
 
 	none := c10Vals{}
 	p, o := none, none
@@ -348,7 +377,6 @@ func VerifC10_V2AccountAnchors() {
 	vnd.Assert(got.FeeRecipient == want, "C10.v2.first-entry-matching-the-whole-account-name-applies")
 }
 
-
 // ---------------------------------------------------------------------------
 // marshal / unmarshal round trip
 
@@ -468,7 +496,6 @@ func VerifC10_V2RoundTrip() {
 	}
 	vnd.Cover("C10.roundtrip.checked")
 }
-
 
 // VerifC10_V2MinValueRoundTrip: the minimum value (held in wei, written in
 // ETH) of each of the four objects survives the round trip: absent stays
